@@ -163,7 +163,7 @@ pub fn handle(report: &mut Report, ctx: &CaseCtx) {
 pub fn run(report: &mut Report, seed: u64, cases: u64) {
     let mut scfg = StreamCfg::new(cases);
     // read-ahead wrappers / trace recording materialise whole context streams: keep cases smaller
-    scfg.cost_budget = 30_000;
+    scfg.cost_budget = 8_000;
     run_stream(report, seed, &scfg, handle);
 }
 
